@@ -425,13 +425,22 @@ func InfoBANP(a *ANP, name string) *resource.Info {
 
 // InfoPod emits a bare Pod; owner != "" adds a controller ownerReference (ReplicaSet).
 func InfoPod(ns, name, owner string, labels map[string]string, ports []CPort) *resource.Info {
+	return InfoPodIPs(ns, name, owner, labels, ports, "192.168.1.1", "10.0.0.1")
+}
+
+// PodHostIP / PodIP: addresses of the i-th pod of a workload expressed as Pods (pods of one workload run on different nodes).
+func PodHostIP(i int) string { return fmt.Sprintf("10.1.2.%d", 3+i) }
+func PodIP(i int) string     { return fmt.Sprintf("10.9.0.%d", 1+i) }
+
+// InfoPodIPs is InfoPod with explicit status.hostIP and pod IP.
+func InfoPodIPs(ns, name, owner string, labels map[string]string, ports []CPort, hostIP, podIP string) *resource.Info {
 	var cps []corev1.ContainerPort
 	for _, cp := range ports {
 		cps = append(cps, corev1.ContainerPort{Name: cp.Name, ContainerPort: int32(cp.Num), Protocol: corev1.Protocol(cp.Proto)})
 	}
 	p := &corev1.Pod{ObjectMeta: metav1.ObjectMeta{Name: name, Namespace: ns, Labels: labels},
 		Spec:   corev1.PodSpec{Containers: Containers(cps)},
-		Status: corev1.PodStatus{HostIP: "192.168.1.1", PodIPs: []corev1.PodIP{{IP: "10.0.0.1"}}}}
+		Status: corev1.PodStatus{HostIP: hostIP, PodIPs: []corev1.PodIP{{IP: podIP}}}}
 	if owner != "" {
 		t := true
 		p.OwnerReferences = []metav1.OwnerReference{{Kind: "ReplicaSet", Name: owner, APIVersion: "apps/v1", Controller: &t}}
